@@ -142,6 +142,26 @@ def run(rep, tier):
         rep.ob("R24.1", "old_len != 0: never a fresh alloc (contents would be lost)", els is not None and not layout_and_call(els, "alloc")[1], "", f.loc(o))
         # the result binding and the null test
         res = [nm for nm, init, st in synq.bindings(f.body) if init is not None and any(x is o for x in synq.walk(init))]
+        if len(res) > 1:
+            # `let (ptr, layout) = if .. { (alloc(..), l) } else { (realloc(..), l) }`: the pointer is the tuple position
+            # that holds the allocator call in every branch
+            lets = [st for nm, init, st in synq.bindings(f.body) if init is not None and any(x is o for x in synq.walk(init))]
+            pat = lets[0]["pat"] if lets and all(l is lets[0] for l in lets) else None
+            if pat is not None and pat.get("k") == "p_tuple":
+                def tail_tuple(b):
+                    while b is not None and b.get("k") == "block" and b.get("stmts"):
+                        last = b["stmts"][-1]
+                        if last.get("k") != "expr_stmt" or last.get("semi"):
+                            return None
+                        b = last["e"]
+                    return b if b is not None and b.get("k") == "tuple" else None
+                tt = [tail_tuple(o["then"]), tail_tuple(o.get("else"))]
+                if all(t is not None and len(t["elems"]) == len(pat["elems"]) for t in tt):
+                    idx = [i for i in range(len(pat["elems"])) if all(
+                        any(c_.get("k") == "call" and synq.short(render(c_["func"])) in set(inv.values()) | {"alloc", "realloc", "allocate"}
+                            for c_ in synq.walk(t["elems"][i])) for t in tt)]
+                    if len(idx) == 1 and pat["elems"][idx[0]].get("k") == "p_ident":
+                        res = [pat["elems"][idx[0]]["name"]]
         rep.ob("R24.1", "the allocation result is bound once", len(res) == 1, f"{res}", f.loc())
         if len(res) != 1:
             return
